@@ -675,3 +675,16 @@ package ledger
 // iteration order unobservable
 //@ effect (*FinalityLedger).Commit maprange#0: the loop only collects the keys; they are sorted (LedgerKeyList) before any tree write, and the writes are a function of the sorted list (Commit post-conditions and loop invariants, C18)
 //@ effect (*memItems).refresh maprange#0: map-to-map copy over distinct keys; the post-condition is stated over the maps, so it holds for every iteration order (visited-set invariant, C18)
+
+// ---- iteration over the committed items (C10, C18): every item handed to the callback is decoded afresh from
+// the committed tree (never a cached live object that transactions of the running block mutate)
+//@ func (ledger *FinalityLedger[T]) IterateReadAllFinalityItems(cb)
+//@   requires ledger != nil
+//@   modifies everything
+//@   assert@call(IterateReadAllItems,0): $arg1 == cb                                                          [C10,C18]
+
+//@ func (ledger *SimpleLedger[T]) IterateReadAllItems__1(key, value)
+//@   assumes ledger != nil && ledger.getNewItem != nil
+//@   modifies everything
+//@   assert@call(Decode,0): $arg0 == value                                                                    [C18]
+//@   assert@call(cb,0): $arg0 == item && fresh(item)                                                          [C10,C18]
